@@ -164,8 +164,90 @@ def _fold(x, f2, axis=None):
     return out
 
 
-class _Facade(types.ModuleType):
-    pass
+class Angle:
+    """unit-vector angle domain: an angle is the pair (cos, sin); sums are complex products (exact in real arithmetic)"""
+
+    def __init__(self, c, s):
+        self.c, self.s = c, s
+
+    @staticmethod
+    def of(x):
+        if isinstance(x, Angle):
+            return x
+        if is_sym(x):
+            raise V.Unsupported("symbolic angle in radians")
+        return Angle(_np.float64(_math.cos(x)), _np.float64(_math.sin(x)))
+
+    def __add__(self, o):
+        o = Angle.of(o)
+        return Angle(self.c * o.c - self.s * o.s, self.s * o.c + self.c * o.s)
+
+    __radd__ = __add__
+
+    def __sub__(self, o):
+        o = Angle.of(o)
+        return Angle(self.c * o.c + self.s * o.s, self.s * o.c - self.c * o.s)
+
+    def __neg__(self):
+        return Angle(self.c, -self.s)
+
+
+class SymQuot(SymReal):
+    """num/den kept factored so that den * (num/den) cancels syntactically (den = sqrt(x^2+y^2) of arctan2).
+    At den == 0 (x = y = 0) numpy yields r*cos = r*sin = 0 and num (a linear form in x, y) is 0 too."""
+    __slots__ = ("num", "den")
+
+    def __init__(self, num, den):
+        self.num, self.den = num, den
+        SymReal.__init__(self, z3.If(den == 0, z3.RealVal(0), num / den))
+
+    def _same(self, o):
+        return isinstance(o, SymQuot) and o.den.eq(self.den)
+
+    def __add__(self, o):
+        if self._same(o):
+            return SymQuot(self.num + o.num, self.den)
+        return SymReal.__add__(self, o)
+
+    __radd__ = __add__
+
+    def __sub__(self, o):
+        if self._same(o):
+            return SymQuot(self.num - o.num, self.den)
+        return SymReal.__sub__(self, o)
+
+    def __neg__(self):
+        return SymQuot(-self.num, self.den)
+
+    def __mul__(self, o):
+        if isinstance(o, _np.ndarray):
+            return NotImplemented
+        if isinstance(o, SymReal) and not isinstance(o, SymQuot) and o.t.eq(self.den):
+            return SymReal(self.num)
+        if isinstance(o, SymQuot):
+            return SymReal.__mul__(self, o)
+        if isinstance(o, (SymReal, SymInt)) or V._is_num(o):
+            if V._is_num(o) and o == 0:
+                return _np.float64(0.0)
+            return SymQuot(self.num * V.to_real_term(o), self.den)
+        return SymReal.__mul__(self, o)
+
+    __rmul__ = __mul__
+
+
+class AngleDeg:
+    """a symbolic angle in degrees, known only through its (cos, sin) pair"""
+
+    def __init__(self, c, s):
+        self.angle = Angle(c, s)
+
+
+def sym_arctan2(y, x):
+    r = (V.sym_float(x) * x + V.sym_float(y) * y)
+    r = r.sqrt() if is_sym(r) else _math.sqrt(r)
+    rt, xt, yt = V.to_real_term(r), V.to_real_term(x), V.to_real_term(y)
+    # numpy: arctan2(0, 0) = 0
+    return Angle(SymQuot(xt, rt), SymQuot(yt, rt))
 
 
 class NPFacade:
@@ -258,10 +340,26 @@ class NPFacade:
         return _map(lambda e: V.sym_float(e).log10(), _np.log10, x)
 
     def cos(self, x, **kw):
+        if isinstance(x, Angle):
+            return x.c
         return _map(lambda e: V.sym_float(e).cos(), _np.cos, x)
 
     def sin(self, x, **kw):
+        if isinstance(x, Angle):
+            return x.s
         return _map(lambda e: V.sym_float(e).sin(), _np.sin, x)
+
+    def radians(self, x, **kw):
+        if isinstance(x, AngleDeg):
+            return x.angle
+        return _np.radians(x, **kw)
+
+    def arctan2(self, y, x, **kw):
+        if is_sym(y) or is_sym(x):
+            return sym_arctan2(y, x)
+        if has_sym(y) or has_sym(x):
+            return _binary_map(lambda a, b: sym_arctan2(a, b) if (is_sym(a) or is_sym(b)) else Angle.of(_np.arctan2(a, b)), y, x)
+        return _np.arctan2(y, x)
 
     def isnan(self, x, **kw):
         return _asbool(_map(lambda e: False, _np.isnan, x))
